@@ -49,7 +49,7 @@ ASSUMPTIONS = [
     'rounded additions), direction = sign(stop - start)',
 ]
 SHARDS = {'quick': 4, 'thorough': 16}
-REQUIRED_CLASSES = {'header-spacing-zero': 1, 'data-block>=65536-bytes': 1, 'file-nontrivial': 1, 'passes>=2': 1, 'short-last-block': 1, 'blocks-differ': 1, 'channels==20': 1,
+REQUIRED_CLASSES = {'header-spacing-zero': 1, 'channel-with-blank-name': 1, 'data-block>=65536-bytes': 1, 'file-nontrivial': 1, 'passes>=2': 1, 'short-last-block': 1, 'blocks-differ': 1, 'channels==20': 1,
                     'channels==1': 1, 'up-log': 1, 'down-log': 1, 'word-unnormalised': 1, 'word-zero-fraction': 1,
                     'word-negative': 1, 'sweep-words': 1, 'bundled-file': 1, 'block-bytes>=4096': 1}
 
@@ -461,6 +461,7 @@ def classify_model(model, cc):
         start, stop = ibm.ibm_fraction(p['range_words'][0]), ibm.ibm_fraction(p['range_words'][1])
         cc.cls('up-log', stop < start)      # depth decreasing: logging up the hole
         cc.cls('down-log', stop > start)
+        cc.cls('channel-with-blank-name', any(str(c).strip() == '' for c in p['channels']))
         cc.cls('header-spacing-zero', p['range_words'][2] & 0xFFFFFF == 0)
         cc.cls('header-frames!=recorded', frames_from_header(p) != frames)
         ws = [w for d in p['data'] for w in d]
